@@ -104,6 +104,15 @@ pub struct Swarm {
     pub noise: bool,
     /// the reader does not own the files: futimens fails with EPERM
     pub futimens_eperm: bool,
+    /// mode the application gives its temp-file object before
+    /// set_temp_file / put_temp_file
+    pub temp_mode: Option<u32>,
+    /// entries of read-only levels were dropped there by another program
+    /// with this mode (Kismet itself publishes 0444)
+    pub foreign_mode: u32,
+    /// the open of the key's copy in this level (index into the levels that
+    /// hold a copy) fails with EIO
+    pub fault_open: Option<usize>,
 }
 
 #[derive(Clone, Debug, PartialEq)]
@@ -146,6 +155,9 @@ pub fn run_point(tape: &mut Tape, pt: &Point, detail: bool) -> MatReport {
         plen: [0, *tape.pick(&[5usize, 0, 40, 4097, 8192 * 2 + 5]), *tape.pick(&[6usize, 1, 41, 4095]), *tape.pick(&[7usize, 0, 8192])],
         noise: tape.draw(4) == 3,
         futimens_eperm: tape.draw(4) == 3,
+        temp_mode: *tape.pick(&[None, None, Some(0o400u32), Some(0o440), Some(0o644), Some(0o640), Some(0o444)]),
+        foreign_mode: *tape.pick(&[0o444u32, 0o444, 0o444, 0o644, 0o664, 0o400]),
+        fault_open: if tape.draw(6) == 5 { Some(tape.draw(3) as usize) } else { None },
     };
     let nshards = 2 + tape.draw(3) as usize;
     let a = tape.draw(nshards as u64) as usize;
@@ -192,7 +204,7 @@ pub fn run_point(tape: &mut Tape, pt: &Point, detail: bool) -> MatReport {
             let future = is_reader && tape.draw(4) == 3;
             let mtime = if future { fs.now + *tape.pick(&[600_000_000_000i64, 3_600_000_000_000]) } else { fs.now - 7_200_000_000_000 - (i as i64) * 1_000_000_000 };
             let marked = tape.draw(2) == 1;
-            fs.plant_file(&format!("{}/{}", phys, cname), &make_value(&cname, c as u32, sw.plen[c as usize]), 0o444, if marked { mtime } else { mtime - 120_000_000_000 }, mtime);
+            fs.plant_file(&format!("{}/{}", phys, cname), &make_value(&cname, c as u32, sw.plen[c as usize]), if is_reader { sw.foreign_mode } else { 0o444 }, if marked { mtime } else { mtime - 120_000_000_000 }, mtime);
             // a sibling entry that must never change
             fs.plant_file(&format!("{}/sibling", phys), &make_value("sibling", 9, 3), 0o444, mtime - 120_000_000_000, mtime - 5_000_000_000);
             phys_of[i] = Some(phys);
@@ -245,12 +257,33 @@ pub fn run_point(tape: &mut Tape, pt: &Point, detail: bool) -> MatReport {
         MOp::SetTemp => Op::SetTemp { tag: ptag, plen: pplen },
         MOp::PutTemp => Op::PutTemp { tag: ptag, plen: pplen },
     };
-    if sw.futimens_eperm || pt.fault_scratch {
+    // the copy whose open fails (if any): one of the levels that hold the key
+    let open_fault_path: Option<String> = match (sw.fault_open, pt.bad_name.is_none()) {
+        (Some(k), true) => {
+            let holders: Vec<&String> = phys_of.iter().flatten().collect();
+            if holders.is_empty() {
+                None
+            } else {
+                Some(format!("{}/{}", holders[k % holders.len()], cname))
+            }
+        }
+        _ => None,
+    };
+    let open_fault_fired = std::sync::Arc::new(std::sync::atomic::AtomicBool::new(false));
+    w.temp_mode = sw.temp_mode;
+    if sw.futimens_eperm || pt.fault_scratch || open_fault_path.is_some() {
         let (fe, fs_) = (sw.futimens_eperm, pt.fault_scratch);
         let mut scratch_failed = false;
+        let (ofp, off) = (open_fault_path.clone(), open_fault_fired.clone());
         w.sim.lock().injector = Some(Box::new(move |info, _t| {
             if !info.lib {
                 return None;
+            }
+            if let Some(pth) = &ofp {
+                if info.kind == K::Open && info.arg & kismet_vfs::kernel::O_CREATE == 0 && info.raw == pth.as_str() {
+                    off.store(true, std::sync::atomic::Ordering::Relaxed);
+                    return Some(libc::EIO);
+                }
             }
             if fe && info.kind == K::Futimens {
                 return Some(libc::EPERM);
@@ -437,11 +470,17 @@ pub fn run_point(tape: &mut Tape, pt: &Point, detail: bool) -> MatReport {
             }
         }
     }
+    // A copy that is there but cannot be opened (EIO) is not an absent copy:
+    // whichever lookup ran into it must fail, and with it the call.
+    let open_fault_hit = open_fault_fired.load(std::sync::atomic::Ordering::Relaxed);
+    if open_fault_hit {
+        exp = Exp::Err(None);
+    }
     // ------------------------------------------------------------ judge
     let mut findings: Vec<MatFinding> = Vec::new();
     let desc = format!(
-        "writer={:?} readers={:?} content={:?} op={:?} populate={:?} checker={:?} bad_name={:?} missing_dirs={} fault_scratch={} futimens_eperm={} umask={:o} auto_sync={} judge_reads={} shards={} [{}]",
-        pt.cfg.writer, pt.cfg.readers, pt.cfg.content, pt.op, pt.pop, pt.checker, pt.bad_name, pt.missing_dirs, pt.fault_scratch, sw.futimens_eperm, sw.umask, sw.auto_sync, sw.judge_reads, nshards, kn.describe()
+        "writer={:?} readers={:?} content={:?} op={:?} populate={:?} checker={:?} bad_name={:?} missing_dirs={} fault_scratch={} futimens_eperm={} temp_mode={:?} foreign_mode={:o} fault_open={:?} umask={:o} auto_sync={} judge_reads={} shards={} [{}]",
+        pt.cfg.writer, pt.cfg.readers, pt.cfg.content, pt.op, pt.pop, pt.checker, pt.bad_name, pt.missing_dirs, pt.fault_scratch, sw.futimens_eperm, sw.temp_mode, sw.foreign_mode, open_fault_path, sw.umask, sw.auto_sync, sw.judge_reads, nshards, kn.describe()
     );
     let mut fail = |prop: &'static str, class: &str, msg: String| {
         findings.push(MatFinding { prop, v: Violation::new(class, msg).attr("op", format!("{:?}", pt.op)) });
@@ -470,8 +509,10 @@ pub fn run_point(tape: &mut Tape, pt: &Point, detail: bool) -> MatReport {
     };
     let result_prop: &'static str = if has_checker { "c14" } else { "c13" };
     if !matches {
-        fail(result_prop, "result", format!("expected {:?}, got {:?} ({})", exp, got, res.short()));
+        fail(result_prop, "result", format!("expected {:?}, got {:?} ({}){}", exp, got, res.short(), if open_fault_hit { format!(" -- the open of the copy {} failed with EIO", open_fault_path.clone().unwrap_or_default()) } else { String::new() }));
     }
+    // after a failed lookup the side effects up to that point are not predicted
+    let matches = matches && !open_fault_hit;
     if res.panic.is_some() && exp == Exp::Panic {
         if !res.panic.as_ref().unwrap().contains("file contents do not match") {
             fail("c14", "panic-message", format!("unexpected panic: {:?}", res.panic));
